@@ -145,7 +145,7 @@ fn miri_leg(thorough: bool, _seed: u64, m: &mut Merged) -> Vec<Value> {
     if std::env::var("VERIF_NO_MIRI").is_ok() {
         return vec![json!({"leg": "miri", "status": "disabled by VERIF_NO_MIRI"})];
     }
-    let dir = format!("{}/sim/build/miri", verif_root());
+    let dir = format!("{}/miri", std::env::var("MOMSIM_BUILD_ROOT").unwrap_or(format!("{}/sim/build", verif_root())));
     let plan: Vec<(u64, u64)> = if thorough {
         vec![(0, 48), (1, 48), (2, 96), (3, 48), (4, 48), (5, 96)]
     } else {
@@ -556,7 +556,7 @@ pub fn replay(props: &[&dyn Property], path: &str) -> i32 {
     };
     let case = &v["case"];
     if case["kind"] == "miri" {
-        let dir = format!("{}/sim/build/miri", verif_root());
+        let dir = format!("{}/miri", std::env::var("MOMSIM_BUILD_ROOT").unwrap_or(format!("{}/sim/build", verif_root())));
         let flags = match case["miri_seed"].as_u64() {
             Some(sd) => format!("-Zmiri-deterministic-floats -Zmiri-preemption-rate=0.1 -Zmiri-seed={}", sd),
             None => format!(
